@@ -127,6 +127,20 @@ def directed(default_params):
                                                                   "gen"][k % 4],
                       "pick": 7 * k + k // 4, "perms": [[k, 3 * k + 1], [k + 1, k]][:1 + k % 2]})
     out.append(("term-level", P, steps))
+    # minimize_tensor_indices on tensors that carry an index more than once
+    reps = [["j", "j"], ["j", "i", "j"], ["k", "k", "a"], ["j", "a", "j", "b"], ["k", "j", "k"],
+            ["l", "k", "l", "k"], ["c", "b", "c"], ["k2", "j", "k2", "i"], ["q", "p", "q"],
+            ["j:b", "i:a", "j:b"], ["m", "l", "k", "m", "l"]]
+    for tg in ([], ["j"], ["i", "a"]):
+        steps = []
+        for n, r in enumerate(reps):
+            steps.append({"op": "build", "slot": 0, "targets": [t for t in tg if t in r],
+                          "terms": [{"pref": [1, 1], "atoms": [["nst", "w", r],
+                                                               ["nst", "u", r[::-1]]]}]})
+            steps.append({"op": "rename.minimize", "slot": 0, "pick": 0})
+            steps.append({"op": "rename.minimize", "slot": 0, "pick": 1})
+            steps.append({"op": "rename.sc", "slot": 0})
+        out.append((f"minimize-repeats-{len(tg)}t", dict(P, spin_mode=True), steps))
     # D5 expand_itmd with targets equal to the definition's own contracted names
     steps = []
     for pick in range(0, 22):
